@@ -251,6 +251,9 @@ func (sw *SnapshotWriter) saveHeader() error {
 		Version:         uint64(sw.vw.GetVersion()),
 		CompressionType: sw.ct,
 	}
+	if verifEnabled {
+		sh.UnreliableTime = verifHeaderTime(sh.UnreliableTime)
+	}
 	data := pb.MustMarshal(&sh)
 	headerHash := getDefaultChecksum()
 	if _, err := headerHash.Write(data); err != nil {
